@@ -489,7 +489,14 @@ class CallMixin:
     def len_(self, v, st):
         if isinstance(v, (str, tuple, bytes)):
             return [("val", len(v), st)]
-        if is_sym(v, "str") or is_sym(v, "strlist"):
+        if is_sym(v, "str"):
+            # len() of a symbolic string is an uninterpreted length (>= 0, zero iff empty), decoupled from the sequence theory
+            # (z3 would otherwise build witnesses of e.g. 262145 characters for `len(s) > CHECKPOINT_SIZE_LIMIT`)
+            slen = z3.Function("slen", z3.StringSort(), z3.IntSort())
+            n = slen(v.t)
+            st.assume(z3.And(n >= 0, (n == 0) == (v.t == z3.StringVal(""))))
+            return [("val", Sym("int", n), st)]
+        if is_sym(v, "strlist"):
             return [("val", Sym("int", z3.Length(v.t)), st)]
         if isinstance(v, Ref):
             s = st.get(v)
